@@ -1,6 +1,7 @@
 -- root of the `TracingModel` library: every property file (so that `lake build` re-checks all of them)
 import TracingModel.Props.C01
 import TracingModel.Props.C02
+import TracingModel.Props.C03
 import TracingModel.Props.C05
 import TracingModel.Props.C06
 import TracingModel.Props.C19
